@@ -43,6 +43,7 @@ VARIANTS = {
 
 UNITS = {
     "c01": {"kind": "exe", "src": ["units/c01_int_arith.cpp"]},
+    "c02": {"kind": "exe", "src": ["units/c02_fp_basic.cpp"], "aux": {"ref": {"src": "common/ref.cpp", "flags": ["-ffp-contract=off", "-fno-builtin"]}}, "link": ["ref"]},
 }
 
 ALL22 = "every architecture this CPU executes: 20 x86 (sse2 ... avx512vnni<avx512vbmi2>) + emulated<128>, emulated<256>"
@@ -76,5 +77,44 @@ PROPS = {
                 "(thorough: all 2^32; quick: 1/127 strided) 16-bit operand pairs; a distinct non-trivial cell = (op,type,arch,lane,class of each operand); " + ALL22,
         "assumptions": COMMON_ASSUME + ["div/mod only with divisor != 0 and not MIN/-1; avgr only when a+b >= 0"],
         "floor": {"quick": 10**7, "thorough": 10**9},
+    },
+    "C02": {
+        "technique": "runtime monitoring: IEEE reference oracle (scalar hardware ops / libm in a separately compiled baseline TU) on every lane, 22 architectures",
+        "level_text": "Every lane of every basic floating-point kernel call observed is compared bit-for-bit (any NaN = any NaN) with the scalar IEEE operation evaluated in an "
+                      "independent -ffp-contract=off translation unit; fma family against {fused, unfused}; predicates against the mathematical predicate. float32 unary "
+                      "operations are swept over all 2^32 patterns in the thorough tier (1/509 strided in quick). Binary operand pairs and doubles are sampled: exploration.",
+        "level_note": "Trusts the scalar FPU/libm (sqrt, fma, nextafter, frexp, ldexp) as reference. Sign of zero is free for frexp(+-0), nextafter with from==to, min/max of +-0; "
+                      "NaN payloads are not compared; ldexp only with 2^e normal.",
+        "design_ref": "DESIGN.md section 6 C02, section 4",
+        "jobs": [
+            {"unit": "c02"},
+            {"unit": "c02", "variant": "native", "tiers": ["thorough"], "args": ["--scale", "0.2"]},
+            {"unit": "c02", "variant": "ndebug", "tiers": ["thorough"], "args": ["--scale", "0.2"]},
+            {"unit": "c02", "variant": "clang", "tiers": ["thorough"], "args": ["--scale", "0.2"]},
+        ],
+        "rule": "each evaluation = one lane of one op call compared with the scalar IEEE reference; operands per lane drawn independently from a special-value lattice "
+                "(+-0,+-1,+-inf,NaN,+-MIN,+-denorm_min,+-MAX,halves,eps...), random bit patterns, moderate values, neighbourhoods of 2^mant, subnormals with random mantissa, "
+                "related pairs (b within 2 ulp of a), a witness-lane sweep, and all/strided float32 patterns for unary ops; a distinct non-trivial cell = "
+                "(op,type,arch,lane,class of each operand); " + ALL22,
+        "assumptions": COMMON_ASSUME + ["sign of zero free where the property says so; NaN payload/sign not compared", "ldexp exponent restricted to 2^e normal (DESIGN.md 5.3)"],
+        "floor": {"quick": 10**7, "thorough": 10**9},
+    },
+    "C08": {
+        "technique": "runtime monitoring: C library rounding functions as reference oracle on every lane, float32 strided/exhaustive, 22 architectures",
+        "level_text": "ceil/floor/trunc/round/nearbyint/rint/nearbyint_as_int/to_int of every observed lane are compared as numbers with the C library in a baseline TU; "
+                      "float32 over all 2^32 patterns (thorough) or a 1/509 strided sample plus a half-integer/ulp lattice around 0, 2^22..2^24, 2^31, 2^51..2^53, 2^63 (quick).",
+        "level_note": "Trusts glibc's rounding functions in round-to-nearest mode (asserted at start). Sign of a zero result is not compared. Doubles are sampled.",
+        "design_ref": "DESIGN.md section 6 C08",
+        "jobs": [
+            {"unit": "c02"},
+            {"unit": "c02", "variant": "native", "tiers": ["thorough"], "args": ["--scale", "0.2"]},
+            {"unit": "c02", "variant": "clang", "tiers": ["thorough"], "args": ["--scale", "0.2"]},
+        ],
+        "rule": "each evaluation = one lane of one rounding op compared numerically with the C library; inputs: hostile lattice, random bit patterns, k/2 and k+-1..2ulp "
+                "lattices around 0, 1e3, 2^(mant-3..mant), 2^31, 2^32, 2^63, 2^64 with both signs, and all (thorough) or 1/509 (quick) of the 2^32 float32 patterns; "
+                "distinct cell = (op,type,arch,lane,input class); " + ALL22,
+        "assumptions": COMMON_ASSUME + ["default rounding mode FE_TONEAREST (asserted)", "integer-returning forms only when the rounded value fits the destination"],
+        "floor": {"quick": 10**6, "thorough": 10**9},
+        "exhaustive": {"quick": False, "thorough": False},
     },
 }
